@@ -1,13 +1,14 @@
-"""C10 (windowed classes) -- reset() and the ring-buffer cursor (D5).
+"""C10 (windowed classes) -- reset() and the ring-buffer cursor.
 
-reset() restores registered states only; `next_inserted` keeps its value.  Faithful models:
-window_reset_refuted* ; V_fixed models: window_reset_fixed*.  WindowedMeanSquaredError is immune
-(compute() always sums the whole zero-padded buffer)."""
-from .. import core, winlib
+Since c5ceb09 every windowed class overrides reset() to rewind `next_inserted`; the faithful
+models do the same (theorems window_reset_is_init*, window_reset_bisim_fresh*).  The directed
+stream still classifies a disagreement by the old trigger, but the finding is `fixed` and
+suppresses nothing: any disagreement is a VIOLATION."""
+from .. import core, streams, winlib
 from ..families import window as W
 
-LEVEL_NOTE = ("C10/windows: refutation witnesses on the faithful models + positive theorems for the V_fixed variant; "
-              "tie = history correspondence with reset-heavy histories")
+LEVEL_NOTE = ("C10/windows: reset() = constructor state on the faithful models (cursor rewound by the reset() override); "
+              "tie = history correspondence with reset-heavy histories, merges included")
 MIX = {"upd": 10, "compute": 6, "reset": 4, "new": 1, "clone": 1, "merge": 0.7}
 
 
@@ -44,6 +45,6 @@ def directed(ctx):
 
 
 def run(ctx):
-    winlib.corr_asis_or_fixed(ctx, W.ENTRIES, "history-correspondence (reset-heavy, windows)",
-                              mix=MIX, nhist=ctx.n(24, 200), nops=(6, 12, 20))
+    streams.hist_corr(ctx, ents=W.ENTRIES, mix=MIX, name="history-correspondence (reset-heavy, windows)",
+                      nhist=ctx.n(24, 200), nops=(6, 12, 20))
     directed(ctx)
